@@ -19,8 +19,24 @@ def _pred(p, v):
         op, ref = p["op"], p.get("value")
         if v is None:
             return False
-        return {"==": v == ref, "!=": v != ref, ">": v > ref, ">=": v >= ref, "<": v < ref,
-                "<=": v <= ref, "in": v in ref if isinstance(ref, list) else False}[op]
+        try:
+            if op == "==":
+                return v == ref
+            if op == "!=":
+                return v != ref
+            if op == ">":
+                return v > ref
+            if op == ">=":
+                return v >= ref
+            if op == "<":
+                return v < ref
+            if op == "<=":
+                return v <= ref
+            if op == "in":
+                return isinstance(ref, list) and v in ref
+        except TypeError:
+            return False
+        return False
     return p == v
 
 
